@@ -505,6 +505,17 @@ Definition frame_wf (f : frame) : Prop :=
 
 (* ------------------------------------------------------------------ *)
 (* correspondence cases *)
+
+(* compact spelling of byte strings in generated case files: the number 0x1 b_{k-1} .. b_1 b_0
+   (two hex digits per byte, first byte of the string last) stands for [b_0; b_1; ..; b_{k-1}] *)
+Fixpoint bn_go (f : nat) (n : N) : bytes :=
+  match f with
+  | O => []
+  | S f' => if n <=? 1 then [] else N.land n 255 :: bn_go f' (N.shiftr n 8)
+  end.
+Definition bn (n : N) : bytes := bn_go (N.size_nat n) n.
+Definition bl (l : list N) : bytes := flat_map bn l.
+
 Definition bytes_eqb (a b : bytes) : bool := list_eqb N.eqb a b.
 
 Fixpoint rv_eqb (a b : rv) : bool :=
